@@ -65,6 +65,8 @@ pub fn alphabet(name: &str) -> Vec<f64> {
         // finite values near the overflow threshold (sums of two overflow, the values do not)
         "qhuge" => vec![-1.7e308, 0., 1.7e308],
         "q07huge" => vec![-1.7e308, -1.2e308, 0.5, 1e308, 1.5e308],
+        // subnormal and barely normal observations (halving them is inexact)
+        "qden" => vec![5e-324, 1.5e-323, -2.5e-323, 0., f64::from_bits(f64::MIN_POSITIVE.to_bits() + 1)],
         "const1" => vec![2.5],
         "weights" => vec![0., 1e-6, 0.5, 1., 3., 1e6],
         _ => panic!("unknown alphabet {name}"),
